@@ -636,6 +636,7 @@ def run_impl(case):
     keep = []    # keeps every pushed object alive (ids stay unique)
     pushed = []  # python objects of the pushes, by push index
     events = []
+    last_raw = None  # the ndarray handed in with the last accepted publication
     for op in case["ops"]:
         if op[0] == "push":
             p = op[2]
@@ -686,14 +687,19 @@ def run_impl(case):
                 desc["buf"] = None
             # ground truth for the monitor: do two retained publications really overlap in memory afterwards?
             really = False
+            # does the handed-in array really overlap the array handed in for the previously accepted publication?
+            raw_shares_prev = bool(raw is not None and last_raw is not None and np.shares_memory(last_raw, raw))
+            prev_spilled = bool(out.data) and isinstance(out.data[-1][1], str)
             try:
                 out.push_data(obj, T(op[1]))
                 res = "ok"
+                last_raw = raw
                 if len(out.data) >= 2 and not isinstance(out.data[-1][1], str) and not isinstance(out.data[-2][1], str):
                     really = bool(np.shares_memory(np.ma.getdata(out.data[-1][1].magnitude), np.ma.getdata(out.data[-2][1].magnitude)))
             except Exception as e:  # noqa
                 res = err_class(e)
-            events.append({"op": "push", "t": op[1], "payload": desc, "res": res, "really_shares": really})
+            events.append({"op": "push", "t": op[1], "payload": desc, "res": res, "really_shares": really,
+                           "raw_shares_prev": raw_shares_prev, "prev_spilled": prev_spilled})
         else:
             oldest = us_of(out.data[0][0]) if out.data else None
             newest = us_of(out.data[-1][0]) if out.data else None
@@ -913,6 +919,11 @@ def _sim(case, obs):
             accepted = ev["res"] == "ok"
             if ev["really_shares"] and accepted:
                 fails.append(f"push at t={ev['t']}: accepted, and the stored publication shares memory with the previous one")
+            if (accepted and ev.get("raw_shares_prev") and not ev.get("prev_spilled") and pubs
+                    and not _needs_conversion(p["units"], case["uo"]) and not _needs_conversion(pubs[-1]["payload"]["units"], case["uo"])):
+                # (a quantity in foreign units is converted into fresh memory by prepare: accepting it is legitimate)
+                fails.append(f"push at t={ev['t']}: the array shares memory with the array published before (t={pubs[-1]['t']}), "
+                             f"neither needed a unit conversion, and it was accepted instead of refused")
             if accepted and (form is None or not units_ok):
                 fails.append(f"push at t={ev['t']}: payload of shape {p['shape']} / units {p['units']!r} accepted for grid shape {obs['gshape']} / units {case['uo']!r}")
             if not accepted and ev["res"] not in ("DataError", "MaskError"):
